@@ -76,7 +76,9 @@ def gen(tier, rng, scale):
             if erng.chance(1, 3) and d > 2:
                 segs, d = _with_zeros(erng, segs, d, keep_leaf=True)
             items.append({"extra": False, "segs": segs, "depth": d})
-            if erng.chance(1, 3) and all(sg[0] == "g" for sg in segs) and d <= 3900:
+            if erng.chance(1, 4):
+                items[-1]["ctx"] = [[erng.below(5000), erng.choice([32, 640, 4095, 1, 100, 3000])] for _ in range(erng.range(1, 2))]
+            elif erng.chance(1, 3) and all(sg[0] == "g" for sg in segs) and d <= 3900:
                 # `perf record --call-graph dwarf,<size>`: the sample carries registers and a copy of the user stack instead of a call chain; the
                 # converter unwinds it (here: a frame-pointer chain), and the stack that comes out is subject to the same depth limiting
                 items[-1]["unwind"] = True
@@ -284,7 +286,12 @@ def _e2e_one(samply, case, d):
             if s.get("unwind"):
                 recs.append(P.sample(100, 100, t, chain[0], [], unwind=chain[1:]))
             else:
-                recs.append(P.sample(100, 100, t, chain[0], [P.PERF_CONTEXT_USER] + chain))
+                cc = [P.PERF_CONTEXT_USER] + chain
+                # further entries from the reserved context range (>= PERF_CONTEXT_MAX = -4095): PERF_CONTEXT_HV, PERF_CONTEXT_USER_DEFERRED and values no
+                # kernel defines yet - markers, never frames
+                for pos, val in s.get("ctx", []):
+                    cc.insert(1 + pos % len(cc), (1 << 64) - val)
+                recs.append(P.sample(100, 100, t, chain[0], cc))
         recs.append(P.finished_round())
         pd = os.path.join(d, "rec.perf.data")
         open(pd, "wb").write(P.build(recs, first_time=ORIGIN, last_time=t))
